@@ -77,11 +77,13 @@ PROPS["C08"] = dict(engines=["atwindow", "apartition"], design="5/C08",
     note="Trusted: TLC; virtual clock advanced only while the loop is idle (timers fire on time); integer intervals; <= 5 elements, <= 3 keys.")
 
 PROPS["C18"] = dict(engines=["asource", "asrcfile"], design="5/C18",
-    technique="TLA+ spec SourceLoop (pool of run-loop instances, start/stop as environment actions at every suspension point; TLC exhaustive) + trace validation of real from_periodic / from_iterable sources under enumerated start/stop histories",
+    technique="TLA+ spec SourceLoop (pool of run-loop instances, start/stop as environment actions at every suspension point; TLC exhaustive) + trace validation of real from_periodic / from_iterable / from_kafka / user-defined sources under enumerated start/stop histories",
     text="TLC checks AtMostOneActive, InOrderOnce, OneInFlight, NoCycleWhileStopped, PollSpacing and the idempotence action properties for all placements of "
          "<= 6 start/stop calls; the unguarded start() of the pinned tree is refuted as a sensitivity check; recorded runs of the real sources are validated with the "
-         "loop-instance steps inferred by TLC.",
-    note="Trusted: TLC; virtual-time loop; sources are given an explicit loop (see C19); from_iterable over an iterator.")
+         "loop-instance steps inferred by TLC.  The non-batched Kafka source (a polling loop and a start() of its own) is a third kind of the "
+         "specification (polling), driven over an in-memory confluent_kafka; its pre-fix start() and do-while loop are refuted on every run.",
+    note="Trusted: TLC; virtual-time loop; sources are given an explicit loop (see C19); from_iterable over an iterator; in-memory Kafka client "
+         "(group subscription, idealised auto-commit).")
 
 PROPS["C17"] = dict(engines=["asrcfile"], design="5/C17",
     technique="TLA+ specs TextFile / Filenames (TLC exhaustive over texts, chunkings and poll placements) + trace validation of the real from_textfile / filenames sources on real files under a virtual clock",
